@@ -111,6 +111,7 @@ func (s *Service) Start(ctx context.Context) error {
 	if s.isFinished.Load() {
 		return ErrServiceReturned
 	}
+	verifYield("srv.Service.Start.checked")
 
 	if s.isRunning.Swap(true) {
 		return ErrServiceAlreadyStarted
@@ -181,6 +182,7 @@ func (s *Service) Start(ctx context.Context) error {
 			defer s.cancel()
 			ec.Add(s.Run(ctx))
 		}()
+		verifYield("srv.Service.Start.launched")
 	})
 
 	return nil
